@@ -81,7 +81,7 @@ let run_closerace (parts : string list) : string =
       (int_of_nat (r_open_count !s)) (List.length !dtask) (b2i (rs_closed !s))
       (if !spec_fail = [] then "ok" else "FAIL:" ^ String.concat "+" (List.rev !spec_fail))
   end else begin
-    let s = ref p_init in
+    let s = ref sdp_init in
     let xtask : int list ref = ref [] in
     let task_of i = let a = List.rev !xtask in if i < List.length a then Some (List.nth a i) else None in
     let closed_seen = ref false in
@@ -100,7 +100,7 @@ let run_closerace (parts : string list) : string =
         | Some x ->
           let ntasks = List.length (ps_tasks !s) in
           let ndials = List.length (ps_dials !s) in
-          (match p_big honour maxs !s x with
+          (match sdp_big honour maxs !s x with
            | Some s' ->
              if e = EvX then xtask := ntasks :: !xtask;
              s := s';
@@ -109,17 +109,17 @@ let run_closerace (parts : string list) : string =
            | None -> false) in
       if e = EvClose then closed_seen := true;
       Buffer.add_char marks (if applied then 'o' else 's');
-      note_spec (p_quiet honour maxs !s) "not-quiescent(fuel)";
+      note_spec (sdp_quiet honour maxs !s) "not-quiescent(fuel)";
       if ps_closed !s then begin
         let pending = List.length (List.filter (fun d -> match d.pd_stage with PdGot true -> true | _ -> false) (ps_dials !s)) in
-        note_spec (int_of_nat (p_open_count !s) = pending) "open-after-close"
+        note_spec (int_of_nat (sdp_open_count !s) = pending) "open-after-close"
       end) evs;
-    let results = List.map (fun t -> res_str (p_result !s (nat_of_int t))) (List.rev !xtask) in
+    let results = List.map (fun t -> res_str (sdp_result !s (nat_of_int t))) (List.rev !xtask) in
     if ps_closed !s then
       List.iter (fun r -> if r = "pend" then note_spec false "pend-after-close") results;
     Printf.sprintf "ev=%s res=%s open=%d dials=%d closed=%d || spec=%s"
       (Buffer.contents marks) (if results = [] then "-" else String.concat "," results)
-      (int_of_nat (p_open_count !s)) (List.length (ps_dials !s)) (b2i (ps_closed !s))
+      (int_of_nat (sdp_open_count !s)) (List.length (ps_dials !s)) (b2i (ps_closed !s))
       (if !spec_fail = [] then "ok" else "FAIL:" ^ String.concat "+" (List.rev !spec_fail))
   end
 
